@@ -330,7 +330,7 @@ def selftest():
             },
         }
     }
-    man = bytes.fromhex("a3" "0101" "0201" "03" "47" "a1" "02" "81" "82" "414d" "4102")
+    man = bytes.fromhex("a3" "0101" "0201" "03" "48" "a1" "02" "81" "82" "414d" "4102")
     wrapped = bytes([0x40 + len(man)]) + man
     dig = hashlib.sha256(wrapped).digest()
     d_arr = bytes.fromhex("82" "2f" "5820") + dig
